@@ -1,17 +1,20 @@
 #!/bin/bash
 # ./seedtest2.sh <patch.diff> <prop> [<prop> ...] : like seedtest.sh but WITHOUT touching /repo: the patch is applied in a
 # scratch worktree of /repo's HEAD and the checks import jaqalpaq from there (VERIF_REPO_SRC).  Used while a background
-# run needs /repo untouched.  Evidence files written by these runs describe the seeded tree: restore them afterwards.
+# run needs /repo untouched.  Work files, evidence and replays of these runs go to a scratch directory (VERIF_SCRATCH).
 patch="$(realpath "$1")"; shift
 wt=/tmp/wt_seedtest_$$
+scratch=/tmp/verif_scratch_$$
+mkdir -p $scratch
 git -C /repo worktree add -q $wt HEAD || exit 2
-trap 'git -C /repo worktree remove --force '$wt'; git -C /repo worktree prune' EXIT
+trap 'git -C /repo worktree remove --force '$wt'; git -C /repo worktree prune; rm -rf '$scratch EXIT
 (cd $wt && git apply "$patch") || { echo "patch does not apply"; exit 2; }
 cd "$(dirname "$0")"
 for p in "$@"; do
-  out=/tmp/seed_$p.out
-  VERIF_REPO_SRC=$wt/src ./check $p > $out 2>&1; rc=$?
+  out=/tmp/seed_$$_$p.out
+  VERIF_SCRATCH=$scratch VERIF_REPO_SRC=$wt/src ./check $p > $out 2>&1; rc=$?
   echo "== $p rc=$rc : $(grep -c '^VIOLATION' $out) violation line(s)"
   grep -A1 '^VIOLATION' $out | grep 'site=' | awk '{print $1, $2}' | sort | uniq -c | head -8
   tail -1 $out | cut -c1-200
+  rm -f $out
 done
